@@ -64,7 +64,7 @@ func judgeC12(hst Hist) *h.Verdict {
 			now := time.Now()
 			req := models.ChfConvergedChargingChargingDataRequest{SubscriberIdentifier: st.supi, ChargingId: 1,
 				NfConsumerIdentification: &models.ChfConvergedChargingNfIdentification{NFName: "smf", NodeFunctionality: "SMF"},
-				InvocationTimeStamp:      &now, InvocationSequenceNumber: 5}
+				InvocationTimeStamp:      &now, InvocationSequenceNumber: 5, NotifyUri: env.Sink.URL + "/notify/hijacked"}
 			units, _, _ := w.buildUnits(op, nil, true)
 			req.MultipleUnitUsage = units
 			verb := "update"
